@@ -1006,11 +1006,12 @@ where
             JSXElementName::JSXMemberExpr(JSXMemberExpr { prop, .. }) => &*prop.sym,
             JSXElementName::JSXNamespacedName(JSXNamespacedName { name, .. }) => &*name.sym,
         };
-        let should_transformed_to_slots = !self
-            .vue_imports
-            .get(FRAGMENT)
-            .map(|ident| &*ident.sym == name)
-            .unwrap_or_default()
+        let should_transformed_to_slots = name != FRAGMENT
+            && !self
+                .vue_imports
+                .get(FRAGMENT)
+                .map(|ident| &*ident.sym == name)
+                .unwrap_or_default()
             && name != KEEP_ALIVE;
 
         if matches!(element_name, JSXElementName::JSXMemberExpr(..)) {
